@@ -12,7 +12,7 @@ import itertools
 from props import sched_common
 
 PID = 'C15'
-GENERATORS = [('version2coq.py', 'Gen/VersionGen.v')]
+GENERATORS = [('version2coq.py', 'Gen/VersionGen.v'), ('diff2coq.py', 'Gen/DiffGen.v')]
 META = {
     'text': 'Theorems over Gallina definitions regenerated on every run from dawgie.Version by a fail-closed ast translator: <= is the lexicographic order, total/transitive/antisymmetric, the six operators and newer() mutually consistent, for all integer triples (unbounded Z). The build half (which algorithms a (re)load schedules) is proved over the scheduler model and tied to schedule.build/_diff by correspondence on generated engines.',
     'note': 'Trusted: Coq kernel; version2coq.py translator (validated each run on every pair over a finite domain incl. literals of the source); CPython int comparison; for the build half the hand-written scheduler model + correspondence driver. No axioms (Print Assumptions: closed).',
@@ -99,6 +99,7 @@ def run(ctx):
                        'theorem': 'C15_total_order / C15_operators_consistent'})
 
     # ---- generate + prove ---------------------------------------------------
+    okd, msgd = ctx.generate('diff2coq.py', 'Gen/DiffGen.v')
     ok, msg = ctx.generate('version2coq.py', 'Gen/VersionGen.v')
     proofs_ok = False
     if not ok:
@@ -154,4 +155,4 @@ def run(ctx):
                 {'source': 'correspondence', 'op': bad[0], 'a': bad[1], 'b': bad[2]})
 
     # ---- build half ----------------------------------------------------------
-    sched_common.c15_build(ctx)
+    sched_common.c15_build(ctx, okd, msgd, proofs_ok)
